@@ -5,6 +5,7 @@ from typing import Any, Dict, List, Mapping, Optional, Sequence
 from ..exc import ValidationError
 from ..lang.ast import (
     Document,
+    Field,
     FragmentDefinition,
     OperationDefinition,
     Selection,
@@ -13,11 +14,33 @@ from ..schema import Schema
 from .collect_fields import collect_fields_untyped
 
 
+class _UnboundedDepth(Exception):
+    pass
+
+
+def _count_fields(selections: Sequence[Selection]) -> int:
+    count = 0
+    for selection in selections:
+        if isinstance(selection, Field):
+            count += 1
+        selection_set = getattr(selection, "selection_set", None)
+        if selection_set is not None:
+            count += _count_fields(selection_set.selections)
+    return count
+
+
 def _selections_depth(
     selections: Sequence[Selection],
     fragments: Mapping[str, FragmentDefinition],
     variables: Mapping[str, Any],
+    level: int = 0,
+    bound: Optional[int] = None,
 ) -> int:
+    # Every level of an acyclic document is introduced by a distinct field
+    # node, deeper nesting can only come from a fragment cycle.
+    if bound is not None and level > bound:
+        raise _UnboundedDepth()
+
     depth = 0
     for fields in collect_fields_untyped(
         selections, fragments, variables
@@ -31,7 +54,10 @@ def _selections_depth(
         if subselections:
             depth = max(
                 depth,
-                1 + _selections_depth(subselections, fragments, variables),
+                1
+                + _selections_depth(
+                    subselections, fragments, variables, level + 1, bound
+                ),
             )
     return depth
 
@@ -88,8 +114,13 @@ class MaxDepthValidationRule:
         fragments = doc.fragments
         variables = variables or {}
 
-        depth = None  # type: Optional[int]
+        depth = None  # type: Optional[float]
         errors = []  # type: List[ValidationError]
+        bound = sum(
+            _count_fields(d.selection_set.selections)
+            for d in doc.definitions
+            if isinstance(d, (OperationDefinition, FragmentDefinition))
+        )
 
         for op in doc.definitions:
             if not isinstance(op, OperationDefinition):
@@ -100,9 +131,15 @@ class MaxDepthValidationRule:
             ):
                 continue
 
-            depth = _selections_depth(
-                op.selection_set.selections, fragments, variables
-            )
+            try:
+                depth = _selections_depth(
+                    op.selection_set.selections,
+                    fragments,
+                    variables,
+                    bound=bound,
+                )
+            except _UnboundedDepth:
+                depth = float("inf")
 
             if depth > self.max_depth:
                 errors.append(
